@@ -124,9 +124,22 @@ def first_difference(r1: List[Dict], r2: List[Dict]) -> Optional[Tuple[str, str]
             return ("reward", f"record {i}: {a['reward']} vs {b['reward']}")
         if a["trunc"] != b["trunc"]:
             return ("truncated", f"record {i}")
+        if a.get("masks") != b.get("masks"):
+            return ("action-mask", f"record {i}: action masks differ: {_mask_diff(a.get('masks'), b.get('masks'))}")
         if a["state"] != b["state"]:
             return (f"state{_state_key(a, b)}", f"record {i}: normalised simulation state differs {_state_paths(a, b)}")
     return None
+
+
+def _mask_diff(ma, mb) -> str:
+    for name in sorted(set(ma or {}) | set(mb or {})):
+        x, y = (ma or {}).get(name), (mb or {}).get(name)
+        if x != y:
+            if isinstance(x, list) and isinstance(y, list) and len(x) == len(y):
+                idx = [i for i in range(len(x)) if x[i] != y[i]]
+                return f"agent {name}: {len(idx)} entries differ, first at index {idx[0]} ({x[idx[0]]} vs {y[idx[0]]})"
+            return f"agent {name}: {str(x)[:60]} vs {str(y)[:60]}"
+    return ""
 
 
 def _state_paths(a, b):
@@ -397,6 +410,7 @@ def run_instances(case: Dict, res: CaseResult):
                     ey.close()
                 else:
                     drive(ey, [it[1]], metay, None, "other")
+                ey.action_masks()  # what a policy training on the other instance would call
             except Exception:
                 pass  # Y's own failures are not X's business
             _rng_restore(snap)
@@ -496,7 +510,9 @@ def pollute(case: Dict) -> None:
             for k, v in case.get("polluter_io", {}).items():
                 cfg["io_settings"][k] = v
         env = build_env(cfg)
+        env.action_masks()
         drive(env, case.get("polluter_ops", []), meta, None, "polluter")
+        env.action_masks()
         env.close()
     except Exception:
         pass  # the polluter's own failures are not the business of the environment under test
@@ -580,6 +596,7 @@ def polluted_case(draw, shipped: List[str]):
     sp["obs"]["include_nmne"] = True
     sp["obs"]["flatten"] = False
     sp["nmne"] = draw(st.sampled_from([None, None, True, False]))
+    sp["obs"]["masking"] = draw(st.sampled_from([True, True, False]))
     s = draw(SEEDS)
     A = [o for o in c["ops"] if o[0] != "reset"]
     cut = draw(st.integers(0, len(A)))
@@ -591,6 +608,7 @@ def polluted_case(draw, shipped: List[str]):
     else:
         py = draw(gen_scenario.spec_strategy())
         py["nmne"] = draw(st.sampled_from([True, True, False, None])) if sp["nmne"] is None else draw(st.sampled_from([True, False, None]))
+        py["obs"]["masking"] = True
         c["polluter"] = py
         c["polluter_io"] = draw(st.sampled_from([{}, {"save_pcap_logs": True}, {"save_sys_logs": True}]))
         c["polluter_ops"] = [["cat", draw(st.sampled_from(CATS)), draw(st.integers(0, 200))] for _ in range(draw(st.integers(0, 5)))]
